@@ -302,7 +302,11 @@ impl Element {
     /// ```
     #[must_use]
     pub fn content_type(&self) -> ContentType {
-        match self.elemtype().content_mode() {
+        Self::content_type_of(self.elemtype())
+    }
+
+    fn content_type_of(elemtype: ElementType) -> ContentType {
+        match elemtype.content_mode() {
             ContentMode::Sequence => ContentType::Elements,
             ContentMode::Choice => ContentType::Elements,
             ContentMode::Bag => ContentType::Elements,
@@ -1660,10 +1664,12 @@ impl Element {
         inline: bool,
         for_file: &Option<WeakArxmlFile>,
     ) {
+        // the element stays locked while it is serialized; everything is read through this one guard, because locking
+        // the same element for reading again would deadlock if another thread has started waiting for the write lock meanwhile
         let element = self.0.read();
         let element_name = element.elemname.to_str();
 
-        if let Some(comment) = &self.0.read().comment {
+        if let Some(comment) = &element.comment {
             // put the comment on a separate line
             if !inline {
                 Self::serialize_newline_indent(outstring, indent);
@@ -1681,13 +1687,13 @@ impl Element {
         if !element.content.is_empty() {
             outstring.push('<');
             outstring.push_str(element_name);
-            self.serialize_attributes(outstring);
+            Self::serialize_attributes(&element, outstring);
             outstring.push('>');
 
-            match self.content_type() {
+            match Self::content_type_of(element.elemtype) {
                 ContentType::Elements => {
                     // serialize each sub-element
-                    for subelem in self.sub_elements() {
+                    for subelem in element.content.iter().filter_map(ElementContent::unwrap_element) {
                         if for_file.is_none()
                             || subelem.0.read().file_membership.is_empty()
                             || subelem.0.read().file_membership.contains(for_file.as_ref().unwrap())
@@ -1713,7 +1719,7 @@ impl Element {
                     outstring.push('>');
                 }
                 ContentType::Mixed => {
-                    for item in self.content() {
+                    for item in &element.content {
                         match item {
                             ElementContent::Element(subelem) => {
                                 if for_file.is_none()
@@ -1737,7 +1743,7 @@ impl Element {
         } else {
             outstring.push('<');
             outstring.push_str(element_name);
-            self.serialize_attributes(outstring);
+            Self::serialize_attributes(&element, outstring);
             outstring.push('/');
             outstring.push('>');
         }
@@ -1750,8 +1756,7 @@ impl Element {
         }
     }
 
-    fn serialize_attributes(&self, outstring: &mut String) {
-        let element = self.0.read();
+    fn serialize_attributes(element: &ElementRaw, outstring: &mut String) {
         if !element.attributes.is_empty() {
             for attribute in &element.attributes {
                 outstring.push(' ');
